@@ -7,7 +7,7 @@ def run(tier, seed):
     arenas = [("default", {}), ("tiny", {"MIMALLOC_ARENA_RESERVE": "65536"}), ("noarena", {"MIMALLOC_DISALLOW_ARENA_ALLOC": "1"}),
               ("lazy", {"MIMALLOC_EAGER_COMMIT": "0", "MIMALLOC_ARENA_EAGER_COMMIT": "0"})]
     k = 0
-    for delay, dec, mult, pat in itertools.product([-1, 0, 5, 10], [1, 0], [1, 10], ["pages", "segments", "all"]):
+    for delay, dec, mult, pat in itertools.product([-1, 0, 5, 10], [1, 0], [1, 10], ["pages", "segments", "all", "huge"]):
         if delay <= 0 and mult == 10:
             continue
         for an, aenv in arenas:
@@ -31,6 +31,6 @@ def run(tier, seed):
     return osfam.run_os("C18", tier, seed, runs, builds=["rel"] if q else ["rel", "dbg"], own_guards=GUARDS, crash_decisive=False,
                         group=6,
                         extra_cov={"purge_delay": [-1, 0, 5, 10], "purge_decommits": [0, 1], "arena_purge_mult": [1, 10],
-                                   "patterns": ["pages", "segments", "all"], "arena_configs": [a for a, _ in arenas], "configs_run": len(runs)},
+                                   "patterns": ["pages", "segments", "all", "huge"], "arena_configs": [a for a, _ in arenas], "configs_run": len(runs)},
                         assumptions=["time is the virtual clock of the shim; the ordinary activity after T0 is 12 rounds of allocate / free / non-forced mi_collect of size classes "
                                      "not used before, with the clock advanced by 2*(delay*mult+purge_extend_delay) between calls; units freed by the activity itself and units inside page areas are exempt"])
